@@ -5,3 +5,4 @@ import LinfaSpec.Props.C07
 import LinfaSpec.Props.C08
 import LinfaSpec.Props.C09
 import LinfaSpec.Props.C14
+import LinfaSpec.Props.C17
